@@ -73,6 +73,7 @@ void fmt_render(const fcase_t *c, char *out, size_t n) {
         for (j = 0; j < d->esc; j++) EMIT("%%%%");
         if (d->conv == '%') { EMIT("%%%%"); continue; }
         if (d->conv == 'N') { EMIT("%%%%n"); continue; }
+        if (d->conv == '[') { EMIT("%%[x"); continue; } /* printf: an unknown conversion, printed literally by libc */
         EMIT("%%");
         if (g_fent[c->ent].kind == FK_SCANF) { if (d->suppress) EMIT("*"); }
         else {
@@ -192,7 +193,7 @@ void fmt_run(const fcase_t *c, fres_t *x, int want_ref, int guard) {
     n = nfixed;
     for (i = 0; i < c->nd; i++) {
         const fdir_t *d = &c->d[i];
-        if (d->conv == '%' || d->conv == 'N') continue;
+        if (d->conv == '%' || d->conv == 'N' || d->conv == '[') continue;
         if (e->kind == FK_SCANF) {
             if (d->suppress) continue;
             blk_is_n[nblk] = d->conv == 'n';
@@ -361,7 +362,7 @@ void fmt_gen_dir(cs_t *cs, fdir_t *d, int kind, int allow_n, int floats, int wid
     }
     if (allow_n && k < 7) d->conv = 'n';
     else if (k < 8) d->conv = '%';
-    else if (allow_n && k < 9) d->conv = 'N';
+    else if (allow_n && k < 9) d->conv = cs_range(cs, 0, 2) ? 'N' : '[';
     else if (k < 13) d->conv = (uint8_t)iconv[cs_range(cs, 0, 5)];
     else if (k < 15) d->conv = 's';
     else if (k < 16) d->conv = 'c';
@@ -369,7 +370,7 @@ void fmt_gen_dir(cs_t *cs, fdir_t *d, int kind, int allow_n, int floats, int wid
     else if (floats) d->conv = (uint8_t)fconv[cs_range(cs, 0, 5)];
     else d->conv = (uint8_t)iconv[cs_range(cs, 0, 5)];
     if (d->conv == 'n' || d->conv == 'N') d->esc = (uint8_t)cs_range(cs, 0, 2);
-    if (d->conv == '%' || d->conv == 'N') return;
+    if (d->conv == '%' || d->conv == 'N' || d->conv == '[') return;
     d->flags = (uint8_t)cs_range(cs, 0, 31);
     if (cs_range(cs, 0, 2) == 0) d->flags = 0;
     {
